@@ -2409,6 +2409,27 @@ func isPtrSrc(t *itype) bool {
 	return t.cat == ptrT || (t.cat == linkedT && isPtrSrc(t.val))
 }
 
+func isRecvChan(t *itype) bool {
+	rt := t.TypeOf()
+	return rt.Kind() == reflect.Chan && rt.ChanDir() == reflect.RecvDir
+}
+
+// chanElem returns the element type of channel type t, or nil if not known.
+func chanElem(t *itype) *itype {
+	for t.cat == linkedT {
+		t = t.val
+	}
+	switch t.cat {
+	case chanT, chanSendT, chanRecvT:
+		return t.val
+	case valueT:
+		if t.rtype.Kind() == reflect.Chan {
+			return valueTOf(t.rtype.Elem())
+		}
+	}
+	return nil
+}
+
 func isSendChan(t *itype) bool {
 	rt := t.TypeOf()
 	return rt.Kind() == reflect.Chan && rt.ChanDir() == reflect.SendDir
